@@ -19,7 +19,11 @@ def observe(job):
     mdp = job["mdp"]
     tn, td = job["tol"]
     ns, na, ne, PD = mdp["ns"], mdp["na"], mdp["ne"], mdp["PD"]
-    prob = T.make_problem(mdp)
+    if job.get("forest"):
+        from mdpax.problems import Forest
+        prob = Forest(**job["forest"])       # the tables in job["mdp"] are the documented Forest dynamics
+    else:
+        prob = T.make_problem(mdp)
     rs = 2 ** mdp["rexp"]
     m = {"ns": ns, "na": na, "ne": ne, "next": [[[n + 1 for n in row] for row in sa] for sa in mdp["next"]],
          "rew": mdp["rew"], "pk": mdp["pk"], "PD": PD, "GN": 1, "GD": 2}
